@@ -61,6 +61,9 @@ func (e *Enc) call(v ssa.Value, c *ssa.CallCommon, in ssa.Instruction) {
 		e.builtin(v, b, c, in)
 		return
 	}
+	if e.sortSliceCall(c, in) {
+		return
+	}
 	var args []TV
 	if c.IsInvoke() {
 		rv := e.val(c.Value)
@@ -1226,12 +1229,38 @@ func (e *Enc) assertsAt(call *ssa.Call) {
 	}
 	txt := e.w.exprTextAt(e.fn, call.Pos())
 	for _, a := range e.ctr.Asserts {
-		if a.At == "" || strings.Join(strings.Fields(a.At), " ") != txt {
+		byName := strings.HasPrefix(a.At, "call ")
+		if byName {
+			// `at "call Name"`: every call of a function or method with that name; $arg0.. are its arguments
+			// (the receiver of a method is $recv), so the clause does not depend on how the call is spelled
+			nm := ""
+			if c := call.Common(); c.IsInvoke() {
+				nm = c.Method.Name()
+			} else if f := c.StaticCallee(); f != nil {
+				nm = f.Name()
+			}
+			if nm == "" || nm != strings.TrimSpace(a.At[5:]) {
+				continue
+			}
+		} else if a.At == "" || strings.Join(strings.Fields(a.At), " ") != txt {
 			continue
 		}
 		env := e.entryEnv()
 		env.st = e.st
 		env.old = e.entry
+		if byName {
+			c := call.Common()
+			args := c.Args
+			if !c.IsInvoke() && c.Signature().Recv() != nil && len(args) > 0 {
+				env.vars["$recv"] = e.val(args[0])
+				args = args[1:]
+			} else if c.IsInvoke() {
+				env.vars["$recv"] = e.val(c.Value)
+			}
+			for i, x := range args {
+				env.vars[fmt.Sprintf("$arg%d", i)] = e.val(x)
+			}
+		}
 		b := e.curBlock
 		idx := 0
 		for i, in := range b.Instrs {
@@ -1270,4 +1299,57 @@ func (e *Enc) missingAsserts() {
 			e.contractError("assert:"+a.Label, fmt.Errorf("anchor %q not found in the function body", a.At))
 		}
 	}
+}
+
+// sortSliceCall models sort.Slice / sort.SliceStable / sort.Strings on a slice value: the elements in [0,len) are
+// replaced by a permutation of themselves (both directions, through two witness arrays). Sortedness and stability
+// are NOT modelled (the comparison closure is assumed free of side effects and its order is unknown), so only
+// order-independent facts survive the call - which is what a proof about an unstable sort may rely on.
+func (e *Enc) sortSliceCall(c *ssa.CallCommon, in ssa.Instruction) bool {
+	fn := c.StaticCallee()
+	if fn == nil || fn.Pkg == nil || fn.Pkg.Pkg.Path() != "sort" || len(c.Args) == 0 {
+		return false
+	}
+	var x ssa.Value
+	switch fn.Name() {
+	case "Slice", "SliceStable":
+		mi, ok := c.Args[0].(*ssa.MakeInterface)
+		if !ok {
+			return false
+		}
+		x = mi.X
+	case "Strings", "Ints":
+		x = c.Args[0]
+	default:
+		return false
+	}
+	st, ok := x.Type().Underlying().(*types.Slice)
+	if !ok {
+		return false
+	}
+	s := e.val(x).S
+	k := e.arrKeyT(st.Elem())
+	h := e.get(e.st, k)
+	base := "(sbase " + s + ")"
+	if e.ctr != nil && e.ctr.HasMod {
+		e.frameCheckTargetStore(modTarget{k, base}, in)
+	}
+	rowSort := "(Array Int " + e.sortOf(st.Elem()) + ")"
+	if strings.HasSuffix(k, "#ref") {
+		rowSort = "(Array Int Int)"
+	}
+	oldRow := e.fresh("sortold", rowSort)
+	e.assert(eq(oldRow, sel(h, base)))
+	newRow := e.fresh("sortnew", rowSort)
+	perm := e.fresh("sortperm", "(Array Int Int)")
+	inv := e.fresh("sortinv", "(Array Int Int)")
+	g := e.at[e.curBlock]
+	n := "(slen " + s + ")"
+	e.assert(imp(g, fmt.Sprintf("(forall ((i Int)) (! (=> (and (<= 0 i) (< i %s)) (and (<= 0 (select %s i)) (< (select %s i) %s) (= (select %s i) (select %s (select %s i))))) :pattern ((select %s i))))", n, perm, perm, n, newRow, oldRow, perm, newRow)))
+	e.assert(imp(g, fmt.Sprintf("(forall ((j Int)) (! (=> (and (<= 0 j) (< j %s)) (and (<= 0 (select %s j)) (< (select %s j) %s) (= (select %s (select %s j)) (select %s j)))) :pattern ((select %s j))))", n, inv, inv, n, newRow, inv, oldRow, oldRow)))
+	e.assert(imp(g, fmt.Sprintf("(forall ((i Int)) (=> (or (< i 0) (>= i %s)) (= (select %s i) (select %s i))))", n, newRow, oldRow)))
+	e.set(k, store(h, base, newRow))
+	e.noteTarget(k, x)
+	e.flag("sort-as-permutation")
+	return true
 }
